@@ -2,7 +2,7 @@
 Engine E1: every canonical power tree up to n non-source nodes over the component alphabet, both polarities,
 source resistance 0 / r, single- and two-source forests; oracle = phys.check_phase(want C01) + mirror metamorphism."""
 from ..common import Run, Res, quiet_call, seed, close
-from ..sysmodel import (Trees, SIG_FULL, SIG_MID, SIG_DEEP, SIG_ZERO, spec_from_forest, build, observe, resolve, g, PALETTES,
+from ..sysmodel import (Trees, SIG_FULL, SIG_MID, SIG_DEEP, SIG_ZERO, spec_from_forest, build, build_holes, observe, resolve, g, PALETTES,
                         letters, mirror_args, tree_size)
 from .. import phys
 
@@ -10,8 +10,8 @@ PROP = "C01"
 SRS = 0.37
 
 
-def solve_spec(spec, **kw):
-    s = build(spec)
+def solve_spec(spec, holes=None, **kw):
+    s = build(spec) if not holes else build_holes(spec, analyse=(holes == "analysed"))
     try:
         df, _ = quiet_call(s.solve, **kw)
     except RuntimeError as e:
@@ -70,7 +70,7 @@ def check_case(case, want=("C01",)):
         return res
     spec = case_spec(case)
     ta = case.get("ta", 25.0)
-    s, df, exc = solve_spec(spec, ta=ta)
+    s, df, exc = solve_spec(spec, holes=case.get("holes"), ta=ta)
     res.stats["transitions"] += len(spec["comps"]) + 1
     if exc is not None:
         if exc[0] == "RuntimeError" or "Unstable" in exc[1]:
@@ -146,6 +146,12 @@ def gen_cases(tier, want_mirror=True):
             for f in zero.iter_forests(n):
                 for pol, srs in ((1, 0.0), (-1, 0.0), (1, SRS)):
                     yield dict(fam="zero", f=f, pal=pal, pol=pol, srs=srs, n=n)
+        # the same structures reached through an edit history (freed / re-used node indices: a child may have a LOWER index than its parent),
+        # with and without an analysis in the middle of the history
+        for n in (3, 4):
+            for f in deep.iter_forests(n):
+                for holes in ("plain", "analysed"):
+                    yield dict(fam="deep", f=f, pal=pal, pol=1, srs=SRS, n=n, holes=holes, mirror=False)
         for depth in (2, 3, 4, 5, 6):
             for heavy in (0.5, 10.0, 20.0):
                 for micro in (2e-6, 2e-5, 1e-3):
